@@ -96,7 +96,12 @@ def serial_shard(variant, T):
     B = len(hs)
     skind, delay, transform, neuron_kind = variant
     tf = (lambda x, **kw: x * 2.0) if transform else None
-    mk_conn = lambda: dense(B, W1, skind, delay)
+    def mk_conn():
+        c = dense(B, W1, skind, delay)
+        if transform:  # the transform variants also carry an updater (trainable connection)
+            c.updater = c.defaultupdater()
+        return c
+
     mk_neu = (lambda: lif(B)) if neuron_kind == "lif" else (lambda: alif(B))
     case = {"layer": "Serial", "synapse": skind, "delay": delay, "transform": transform, "neuron": neuron_kind, "T": T}
     try:
@@ -229,7 +234,7 @@ def biclique_shard(combine, transforms, T):
     return tally
 
 
-def biclique_unequal_shard(nc, nn_, skind, T):
+def biclique_unequal_shard(nc, nn_, skind, T, updaters=False):
     """Biclique with different numbers of connections and neuron groups (nc -> nn_), stateful synapses (exponential / delayed):
     every group's output equals the neuron applied to the sum of all connection outputs, and clear() at every position of every
     history restores every connection, synapse and neuron group (replay equals a fresh layer)."""
@@ -237,12 +242,16 @@ def biclique_unequal_shard(nc, nn_, skind, T):
     hs, xs = inputs_for(T)
     B = len(hs)
     Ws = [W1, W2, W3][:nc]
-    case = {"layer": f"Biclique[{nc}->{nn_}]", "connections": nc, "neuron_groups": nn_, "synapse": skind, "T": T}
+    case = {"layer": f"Biclique[{nc}->{nn_}]" + ("+updaters" if updaters else ""), "connections": nc, "neuron_groups": nn_, "synapse": skind, "T": T,
+            "updaters_attached": updaters}
     delay = 2.0 if skind == "delta-delayed" else None
     sk = "delta" if skind == "delta-delayed" else skind
 
     def mk():
         conns = [(f"c{i}", dense(B, Ws[i], sk, delay)) for i in range(nc)]
+        if updaters:  # trainable connections (an updater attached): clear() still resets their synapses
+            for _, c in conns:
+                c.updater = c.defaultupdater()
         neus = [(f"n{j}", lif(B, 1.0 + j)) for j in range(nn_)]
         return Biclique(conns, neus, combine="sum")
 
@@ -272,7 +281,7 @@ def biclique_unequal_shard(nc, nn_, skind, T):
             break
     if ok:
         clear_replay(tally, case, mk, step, xs, T, None)
-    tally.mark("nontrivial", ("biclique-unequal", nc, nn_, skind))
+    tally.mark("nontrivial", ("biclique-unequal", nc, nn_, skind, updaters))
     tally.add("histories", B)
     return tally
 
@@ -313,7 +322,11 @@ def recurrent_shard(variant, T):
         names = {"feedfwd": "cin", "lateral": "clat", "feedback": "cfb"}
 
     def mk():
-        return RecurrentSerial(rdense(B, W1), rdense(B, Wl), rdense(B, Wf), rlif(B, 2, 1.0), rlif(B, nfbsz, 2.0), trainable_feedback=trainable, **kw)
+        cs = [rdense(B, W1), rdense(B, Wl), rdense(B, Wf)]
+        if trainable:
+            for c in cs:
+                c.updater = c.defaultupdater()
+        return RecurrentSerial(cs[0], cs[1], cs[2], rlif(B, 2, 1.0), rlif(B, nfbsz, 2.0), trainable_feedback=trainable, **kw)
 
     try:
         layer = mk()
@@ -410,6 +423,8 @@ def run(rep):
     for nc, nn_ in ((2, 1), (1, 2), (3, 1), (3, 2), (1, 1)):
         for skind in ("exp", "delta-delayed"):
             jobs.append((biclique_unequal_shard, (nc, nn_, skind, T)))
+            if (nc, nn_) in ((2, 1), (1, 1)):
+                jobs.append((biclique_unequal_shard, (nc, nn_, skind, T, True)))
     for trainable in (False, True):
         for tr in (False, True):
             jobs.append((recurrent_shard, ((trainable, tr), T)))
@@ -437,7 +452,7 @@ def run(rep):
         "rule": "every boolean input history of length T (as batch) x every layer topology / combine mode / transform choice x every clear "
                 "position; non-trivial = distinct topologies",
     }
-    return rep.finish(cov, floors={"transitions": 150, "distinct_nontrivial": 55})
+    return rep.finish(cov, floors={"transitions": 150, "distinct_nontrivial": 60})
 
 
 def replay(case):
